@@ -7,6 +7,12 @@
    A path is a byte string: a sequence over 0..255 (47 is '/').  Segments are the pieces
    between slashes (Split); both views are used - the rewriting rule is written on the byte
    string, the property invariants on the segment view, and TLC checks that they agree.
+   Paths and registered directories may be ABSOLUTE or RELATIVE ("for all absolute and relative
+   path strings"): "p lies under directory k" is the textual relation - the segments of k are
+   the leading segments of p - so a relative directory (build/proj, github.com/acme - the file
+   names of a -trimpath build) protects the relative paths that begin with it, an absolute one
+   the absolute paths; neither covers a path of the other kind (nothing is resolved against
+   a working directory for this relation).
 
    The abstract state `st` (functional core: Apply(s, e) is the successor for the public
    call e, Outputs(s, p, D) the SET of results allowed for a query of path p):
@@ -15,6 +21,9 @@
      rx    the registered regexp mappings in registration order (a sequence of records
            [anch, lit, wild, repl] standing for  ^?<lit>([^/]+/)?  -> repl ); at start the
            built-in  /Volumes/[^/]+/ -> "~".
+     wd    the CURRENT working directory of the process (byte string, absolute).  Cwd at
+           start; the action Chdir(d) changes it.  The table is NOT touched by Chdir: the preset
+           entry  cwd -> "."  keeps the START directory for the life of the process.
      fp    flag Lprivacypath       (on by default)
      fr    flag Lprivacypathregexp (on by default, removed by init() in a testing/debug process)
 
@@ -28,9 +37,10 @@
         nothing.
      2. regexp stage (fp on): fr on -> every registered regexp in registration order;
         fr off -> the hard-wired rule  /Volumes/<vol>/rest -> ~/rest.
-     3. if the result is still absolute it may be returned as Rel(cwd, p) when that is a
+     3. if the result is still absolute it may be returned as Rel(wd, p) - relative to the
+        CURRENT working directory, or it would not be an equivalent path - when that is a
         strictly shorter string ("unchanged or a shorter equivalent relative path": both are
-        allowed, so this is a set).
+        allowed, so this is a set).  A relative input is never touched by this step.
    fp off: only step 3.
 
    DEVIATIONS (section 5 of DESIGN.md).  D is a set of named deviations describing what the
@@ -43,13 +53,20 @@
    AllDevs together is the as-built behaviour; the trace specification uses it only to NAME
    the class of a divergence (DevClass) - a divergence that AllDevs does not explain either
    is "unexplained".
+   Two further deviations are not as-built; they exist to show (witness configurations) that
+   the invariants really constrain the two dimensions "relative paths" and "working directory
+   changed after start", and to name such a divergence should it ever be observed:
+     "StopRel"     the scan of the table ends as soon as the current string is not absolute
+                   (relative paths see only the entry that happens to be visited first)
+     "StaleWd"     step 3 uses the working directory of process start instead of the current one
 
    WHICH OPERATOR STATES WHICH PART OF THE PROPERTY
      NoProtectedPrefix   "a path under $HOME or under a registered mapping is never reported
                           with that directory prefix" (flag on)
      ShortFormUsed       "the prefix is replaced by its short form" (and nothing else changes)
      OutsideUnchanged    "paths outside all mappings are returned unchanged or as a shorter
-                          equivalent relative path" (also: flag off => nothing is rewritten)
+                          equivalent relative path" (also: flag off => nothing is rewritten);
+                          equivalent = names the same file from the CURRENT working directory
      Total               "never panics": every query has a result, a byte string
      OrderOnlyIfNested   more than one allowed result only where two mappings cover the path
      RegexpGated         with Lprivacypathregexp off the registered regexps have no effect
@@ -63,6 +80,7 @@ CONSTANTS
     MapSeq,     \* sequence of user mappings [k |-> dir, v |-> short] the exhaustive model may add
     KeySeq,     \* sequence of directories the exhaustive model may remove
     RxSeq,      \* sequence of regexp mappings the exhaustive model may add / remove
+    DirSeq,     \* sequence of (existing, absolute, clean) directories the model may chdir to
     Inputs,     \* set of byte strings queried in every state
     MaxTab,     \* bound: entries in the prefix table
     MaxRx,      \* bound: length of the regexp list
@@ -79,7 +97,8 @@ DOT    == <<46>>
 DOTDOT == <<46, 46>>
 VOLUMES == <<47, 86, 111, 108, 117, 109, 101, 115, 47>>            \* "/Volumes/"
 AllDevs == {"NoBoundary", "ReplaceAll", "RawTable"}
-AllActs == {"AddMap", "RemoveMap", "ResetMap", "AddRx", "RemoveRx", "ResetRx", "SetFlag"}
+WitDevs == {"StopRel", "StaleWd"}
+AllActs == {"AddMap", "RemoveMap", "ResetMap", "AddRx", "RemoveRx", "ResetRx", "SetFlag", "Chdir"}
 
 VolRx == [anch |-> FALSE, lit |-> VOLUMES, wild |-> TRUE, repl |-> TILDE]
 
@@ -98,11 +117,12 @@ RECURSIVE FirstSlash(_, _)
 FirstSlash(p, from) ==
     IF from > Len(p) THEN 0 ELSE IF p[from] = SLASH THEN from ELSE FirstSlash(p, from + 1)
 
-\* p lies under directory k: k is a prefix of p that ends at a segment boundary
+\* p lies under directory k: k is a prefix of p that ends at a segment boundary; k and p are
+\* both absolute or both relative (and not empty)
 DirStr(k) == IF k = ROOT THEN <<>> ELSE k
 Under(p, k) ==
-    /\ k # <<>>
-    /\ Abs(p)
+    /\ k # <<>> /\ p # <<>>
+    /\ Abs(p) = Abs(k)
     /\ HasPrefix(p, DirStr(k))
     /\ (Len(p) = Len(DirStr(k)) \/ p[Len(DirStr(k)) + 1] = SLASH)
 Rest(p, k) == Drop(p, Len(DirStr(k)))
@@ -149,7 +169,7 @@ CwdSegs == CleanAbs(Cwd)      \* constant: evaluated once
 
 \* filepath.Rel(base, targ) for absolute base and targ
 Rel(base, targ) ==
-    LET b == IF base = Cwd THEN CwdSegs ELSE CleanAbs(base)
+    LET b == IF base = Cwd THEN CwdSegs ELSE CleanAbs(base)      \* base: Cwd or the current wd
         t == CleanAbs(targ)
         c == CommonLen(b, t)
     IN IF b = t THEN DOT
@@ -158,13 +178,13 @@ Rel(base, targ) ==
 \* segment formulation of "lies under" (used by the invariants only)
 IsPrefixSeq(a, b) == Len(a) <= Len(b) /\ SubSeq(b, 1, Len(a)) = a
 DirSegs(k) == IF k = ROOT THEN << <<>> >> ELSE Split(k)
-UnderSeg(p, k) == Abs(k) /\ Abs(p) /\ IsPrefixSeq(DirSegs(k), Split(p))
+UnderSeg(p, k) == k # <<>> /\ p # <<>> /\ IsPrefixSeq(DirSegs(k), Split(p))
 
 -----------------------------------------------------------------------------
 (* State and the configuration calls *)
 
 InitTab == (Cwd :> DOT) @@ (Home :> TILDE)      \* Go map literal: a later duplicate key wins
-InitStateWith(fr0) == [tab |-> InitTab, rx |-> <<VolRx>>, fp |-> TRUE, fr |-> fr0]
+InitStateWith(fr0) == [tab |-> InitTab, rx |-> <<VolRx>>, wd |-> Cwd, fp |-> TRUE, fr |-> fr0]
 InitState == InitStateWith(~Testing)
 
 Without(t, k) == [x \in DOMAIN t \ {k} |-> t[x]]
@@ -181,6 +201,7 @@ Apply(s, e) ==
       [] e.op = "AddRx"     -> [s EXCEPT !.rx = Append(s.rx, e.r)]
       [] e.op = "RemoveRx"  -> [s EXCEPT !.rx = RemoveFirstRx(s.rx, e.r)]
       [] e.op = "ResetRx"   -> [s EXCEPT !.rx = <<>>]
+      [] e.op = "Chdir"     -> [s EXCEPT !.wd = e.d]          \* os.Chdir: the table keeps the start directory
       [] e.op = "SetFlag"   -> IF e.f = "path" THEN [s EXCEPT !.fp = e.on] ELSE [s EXCEPT !.fr = e.on]
 
 -----------------------------------------------------------------------------
@@ -200,11 +221,13 @@ Subst(q, k, v, D) ==
 One(q, k, v, D) == IF Match(q, k, D) THEN Subst(q, k, v, D) ELSE q
 
 \* every result of folding the entries S of table T over q, in every order (an entry that does
-\* not match leaves q unchanged, so once no remaining entry matches q the result is q)
+\* not match leaves q unchanged, so once no remaining entry matches q the result is q).
+\* Deviation "StopRel": the scan ends after the first visited entry that leaves a relative string.
 RECURSIVE FoldAll(_, _, _, _)
 FoldAll(q, T, S, D) ==
     IF \A k \in S : ~Match(q, k, D) THEN {q}
-    ELSE UNION {FoldAll(One(q, k, T[k], D), T, S \ {k}, D) : k \in S}
+    ELSE UNION {LET q2 == One(q, k, T[k], D)
+                IN IF "StopRel" \in D /\ ~Abs(q2) THEN {q2} ELSE FoldAll(q2, T, S \ {k}, D) : k \in S}
 
 PrefixStage(s, p, D) == LET T == TabOf(s, D) IN FoldAll(p, T, DOMAIN T, D)
 
@@ -233,15 +256,17 @@ VolRule(q) ==
     ELSE q
 Stage2(s, file, q) == IF s.fr THEN RxFold(file, q, s.rx) ELSE VolRule(q)
 
-\* an absolute result may be given as the relative path from cwd when that is strictly shorter
-Final(file, q) ==
+\* an absolute result may be given as the relative path from the CURRENT working directory when
+\* that is strictly shorter
+Final(s, file, q, D) ==
     IF Abs(q) /\ Abs(file)
-    THEN LET r == Rel(Cwd, file) IN IF Len(r) > 0 /\ Len(r) < Len(q) THEN {q, r} ELSE {q}
+    THEN LET r == Rel(IF "StaleWd" \in D THEN Cwd ELSE s.wd, file)
+         IN IF Len(r) > 0 /\ Len(r) < Len(q) THEN {q, r} ELSE {q}
     ELSE {q}
 
 Outputs(s, p, D) ==
-    IF ~s.fp THEN Final(p, p)
-    ELSE UNION {Final(p, Stage2(s, p, q)) : q \in PrefixStage(s, p, D)}
+    IF ~s.fp THEN Final(s, p, p, D)
+    ELSE UNION {Final(s, p, Stage2(s, p, q), D) : q \in PrefixStage(s, p, D)}
 
 -----------------------------------------------------------------------------
 (* Exhaustive model: every history of configuration calls within the bounds.  A query does
@@ -262,6 +287,7 @@ AddRx(i) ==
 RemoveRx(i)  == "RemoveRx" \in Acts /\ st' = Apply(st, [op |-> "RemoveRx", r |-> RxSeq[i]])
 ResetRx      == "ResetRx" \in Acts /\ st' = Apply(st, [op |-> "ResetRx"])
 SetFlag(f, b) == "SetFlag" \in Acts /\ st' = Apply(st, [op |-> "SetFlag", f |-> f, on |-> b])
+Chdir(i)     == "Chdir" \in Acts /\ st' = Apply(st, [op |-> "Chdir", d |-> DirSeq[i]])
 
 Init == st = InitState
 DumpAlias == [n |-> Cardinality(DOMAIN st.tab)]      \* keeps the dumped graph small: only edges are used
@@ -273,6 +299,7 @@ Next ==
     \/ \E i \in 1..Len(RxSeq) : RemoveRx(i)
     \/ ResetRx
     \/ \E f \in {"path", "regexp"}, b \in BOOLEAN : SetFlag(f, b)
+    \/ \E i \in 1..Len(DirSeq) : Chdir(i)
 Spec == Init /\ [][Next]_st
 
 -----------------------------------------------------------------------------
@@ -287,6 +314,7 @@ TypeOK ==
     /\ st.fp \in BOOLEAN /\ st.fr \in BOOLEAN
     /\ \A k \in DOMAIN st.tab : k \in Seq(Byte) /\ st.tab[k] \in Seq(Byte)
     /\ Len(st.rx) <= MaxRx
+    /\ st.wd \in Seq(Byte) /\ Abs(st.wd)
 
 (* Each part of the property as a predicate of a state s and a deviation set D; the invariants
    proper are the instances for the current state and the configured Devs (= {}).            *)
@@ -309,12 +337,13 @@ Outside(s, p) ==
     \/ ~s.fp
     \/ /\ Covering(s, p) = {}
        /\ IF s.fr THEN \A x \in 1..Len(s.rx) : ~RxMatches(p, s.rx[x]) ELSE VolRule(p) = p
-\* o is a strictly shorter relative path that names the same file as the absolute path p
-ShorterEquiv(o, p) ==
+\* o is a strictly shorter relative path that names the same file as the absolute path p for a
+\* process whose working directory is s.wd NOW
+ShorterEquiv(s, o, p) ==
     /\ Abs(p) /\ ~Abs(o) /\ Len(o) > 0 /\ Len(o) < Len(p)
-    /\ CleanAbs(Cwd \o <<SLASH>> \o o) = CleanAbs(p)
+    /\ CleanAbs(s.wd \o <<SLASH>> \o o) = CleanAbs(p)
 OutsideUnchangedAt(s, D) ==
-    \A p \in Inputs : Outside(s, p) => \A o \in Outputs(s, p, D) : o = p \/ ShorterEquiv(o, p)
+    \A p \in Inputs : Outside(s, p) => \A o \in Outputs(s, p, D) : o = p \/ ShorterEquiv(s, o, p)
 
 OrderOnlyIfNestedAt(s, D) ==
     \A p \in Inputs : Cardinality(PrefixStage(s, p, D)) > 1 => Cardinality(Covering(s, p)) > 1
@@ -337,6 +366,16 @@ WitnessReplaceAll == ~ShortFormUsedAt(InitState, {"ReplaceAll"})
 WitnessRawTable   == ~NoProtectedPrefixAt(Apply(InitState, [op |-> "ResetMap"]), {"RawTable"})
 WitnessIdeal      == /\ OutsideUnchangedAt(InitState, {}) /\ ShortFormUsedAt(InitState, {})
                      /\ NoProtectedPrefixAt(Apply(InitState, [op |-> "ResetMap"]), {})
+\* the two dimensions "relative paths" and "working directory changed" are constrained: a scan that
+\* stops at a relative string lets a registered relative directory through (after adding it), a
+\* relative form computed against the start directory is not an equivalent path (after a chdir)
+RelMaps == {i \in 1..Len(MapSeq) : ~Abs(MapSeq[i].k)}
+AfterAdd(i)   == Apply(InitState, [op |-> "AddMap", k |-> MapSeq[i].k, v |-> MapSeq[i].v])
+AfterChdir(i) == Apply(InitState, [op |-> "Chdir", d |-> DirSeq[i]])
+WitnessStopRel == /\ \E i \in RelMaps : ~NoProtectedPrefixAt(AfterAdd(i), {"StopRel"})
+                  /\ \A i \in RelMaps : NoProtectedPrefixAt(AfterAdd(i), {}) /\ ShortFormUsedAt(AfterAdd(i), {})
+WitnessStaleWd == /\ \E i \in 1..Len(DirSeq) : ~OutsideUnchangedAt(AfterChdir(i), {"StaleWd"})
+                  /\ \A i \in 1..Len(DirSeq) : OutsideUnchangedAt(AfterChdir(i), {})
 
 \* the two formulations of "lies under" agree on everything the model can compare
 AllDirs == {MapSeq[i].k : i \in 1..Len(MapSeq)} \cup {KeySeq[j] : j \in 1..Len(KeySeq)} \cup ({Home, Cwd} \ {<<>>})
@@ -352,4 +391,16 @@ HasInner        == \E p \in Inputs, k \in AllDirs : Under(p, k) /\ k # ROOT /\ R
 HasNested       == \E p \in Inputs, k1, k2 \in AllDirs : k1 # k2 /\ Under(p, k1) /\ Under(p, k2)
 HasShorterRel   == \E p \in Inputs : Abs(p) /\ (\A k \in AllDirs : ~Under(p, k)) /\ Len(Rel(Cwd, p)) < Len(p)
 HasRxMatch      == \E p \in Inputs : RxMatches(p, VolRx) /\ VolRule(p) # p
+(* ... a relative path under a relative directory, the absolute twin of such a path (not covered),
+   a relative path that shares only the string prefix with a relative directory, a relative path
+   outside everything; a directory to change to from which an outside path has another set of
+   allowed results than from the start directory.                                             *)
+RelDirs         == {k \in AllDirs : k # <<>> /\ ~Abs(k)}
+HasRelCovered   == \E p \in Inputs, k \in RelDirs : Under(p, k) /\ p # k
+HasRelTwin      == \E p \in Inputs, k \in RelDirs : Abs(p) /\ Under(Tail(p), k) /\ \A k2 \in AllDirs : ~Under(p, k2)
+HasRelStringPrefix == \E p \in Inputs, k \in RelDirs : HasPrefix(p, k) /\ ~Under(p, k)
+HasRelOutside   == \E p \in Inputs : p # <<>> /\ ~Abs(p) /\ \A k \in AllDirs : ~Under(p, k)
+HasWdSensitive  == \E p \in Inputs, i \in 1..Len(DirSeq) :
+                      /\ Abs(p) /\ \A k \in AllDirs : ~Under(p, k)
+                      /\ Final(AfterChdir(i), p, p, {}) # Final(InitState, p, p, {})
 =============================================================================
